@@ -394,6 +394,21 @@ theorem c02_pass_sends_a_node_missing_upstream (wall : Int → Int) (fuel : Nat)
   rw [syncNode_missing wall fuel s e hs he hp1 hp2 (hfresh e.down (Below.refl _ _))]
   exact toRemote_sent wall s e hs e.up he hP1 hP2 hp1 hPb hfresh
 
+/-- … and what does arrive in that pass is right: the node exists locally afterwards, below the same parent and with the same
+    type, with exactly the upstream points and edge points (plus the mark "not deleted, now" when the upstream edge carries no
+    deletion mark); no other row of the local store changes and the upstream store is not touched. Premises: the upstream
+    rows are stored rows with time stamps (`Rows`, `c02_stored_rows_on_every_store`), the local store knows nothing of the id
+    (`Fresh`), ordinary ids. -/
+theorem c02_missing_downstream_node_is_copied (wall : Int → Int) (s : Pair) (n : NE) (hn2 : n.id ≠ rootS) (hn3 : n.id ≠ allS)
+    (hP : Rows n.pts) (hE : Rows n.epts) (hnt : ∀ p ∈ n.epts, p.type ≠ nodeTypeT)
+    (hf : Fresh s.a n.id) (hid : n.id ≠ [])
+    (hp : n.parent ≠ [] ∧ n.parent ≠ noneS ∧ n.parent ≠ rootS ∧ n.parent ≠ n.id) (ht : n.typ ≠ []) :
+    (toLocal wall s n).b = s.b ∧
+    shapes (toLocal wall s n).a = shapes s.a ++ [(n.parent, n.id, n.typ)] ∧
+    (∀ y, ptsOf (toLocal wall s n).a y = if y = n.id then n.pts else ptsOf s.a y) ∧
+    (∀ u d, eptsOf (toLocal wall s n).a u d = if (u, d) = (n.parent, n.id) then sentE n.epts (wall s.clk) else eptsOf s.a u d) :=
+  toLocal_copies wall s n hn2 hn3 hP hE hnt hf hid hp ht
+
 /-- the child case of `syncChildren` is the instance `P = e.up` (the record sent is the one `getNodes` returned) -/
 example (s : Pair) (e : Edge) : ({ neOf s.a e with parent := e.up } : NE) = neOf s.a e := rfl
 
